@@ -31,24 +31,20 @@ def frozen_functions() -> Dict[str, List[str]]:
 
 
 def _simple_generator(fn: ast.FunctionDef) -> bool:
-    """<statements>; for T in IT: <statements>; yield E      (one yield, last statement of the only top-level loop)"""
+    """a generator whose yields are all statements `yield E` (1..3 of them, anywhere in its loops and branches) and that has no
+    return, break / continue, nested def or yield from: `for T in gen(..): B` is then the generator's body with every `yield E`
+    replaced by `T = E; B`"""
     a = fn.args
     if a.vararg or a.kwarg or a.posonlyargs:
         return False
-    body = list(fn.body)
-    if body and isinstance(body[0], ast.Expr) and isinstance(body[0].value, ast.Constant) and isinstance(body[0].value.value, str):
-        body = body[1:]
-    if not body or not isinstance(body[-1], ast.For) or body[-1].orelse:
-        return False
-    lp = body[-1]
     ys = [n for n in ast.walk(fn) if isinstance(n, (ast.Yield, ast.YieldFrom))]
-    if len(ys) != 1 or not isinstance(ys[0], ast.Yield) or ys[0].value is None:
+    if not 1 <= len(ys) <= 3 or any(not isinstance(y, ast.Yield) or y.value is None for y in ys):
         return False
-    last = lp.body[-1]
-    if not (isinstance(last, ast.Expr) and last.value is ys[0]):
+    stmts = [n for n in ast.walk(fn) if isinstance(n, ast.Expr) and isinstance(n.value, ast.Yield)]
+    if len(stmts) != len(ys):
         return False
-    if any(isinstance(n, (ast.Return, ast.Global, ast.Nonlocal, ast.FunctionDef, ast.Lambda, ast.Break, ast.Continue)) and n is not fn
-           for n in ast.walk(fn)):
+    if any(isinstance(n, (ast.Return, ast.Global, ast.Nonlocal, ast.FunctionDef, ast.Lambda, ast.Break, ast.Continue, ast.Try, ast.With))
+           and n is not fn for n in ast.walk(fn)):
         return False
     return True
 
@@ -552,12 +548,15 @@ class _Inliner:
         return out
 
     def _fuse_generator(self, s: ast.For, owner: str):
-        """for T in gen(args): B   ->   <gen prologue>; for T' in IT': <gen loop body>; T = <yielded>; B"""
+        """for T in gen(args): B   ->   the body of gen (parameters bound, locals renamed) with every `yield E` replaced by
+        `T = E; B`.  B must not break / continue (that would leave the generator's loops, not the consumer's)."""
         c = s.iter
         if not (isinstance(c, ast.Call) and isinstance(c.func, ast.Name) and c.func.id in self.generators) or s.orelse:
             return None
         g = self.generators[c.func.id]
         if g.name == owner:
+            return None
+        if any(isinstance(x, (ast.Break, ast.Continue)) for st in s.body for x in ast.walk(st)):
             return None
         self.counter += 1
         tag = f'g{self.counter}'
@@ -565,39 +564,38 @@ class _Inliner:
         body = list(fake.body)
         if body and isinstance(body[0], ast.Expr) and isinstance(body[0].value, ast.Constant) and isinstance(body[0].value.value, str):
             body = body[1:]
-        lp = body[-1]
-        yielded = lp.body[-1].value.value
-        lp.body = lp.body[:-1]
-        # reuse _expand's binding logic through a synthetic single-exit function: prologue + loop, returning nothing
         fake.body = body
+        for n in ast.walk(fake):
+            if isinstance(n, ast.Expr) and isinstance(n.value, ast.Yield):
+                n.value = ast.copy_location(ast.Call(func=ast.Name(id='__yield__', ctx=ast.Load()), args=[n.value.value], keywords=[]), n.value)
         ex = _expand(c, fake, tag, s)
         if ex is None:
             return None
         pre, _ = ex
         DEFAULTED.pop()
-        new_loop = pre[-1]
-        mapping_loop = new_loop
-        # the yielded expression with the same renaming: expand again with a return of the yielded value
-        fake2 = copy.deepcopy(g)
-        b2 = list(fake2.body)
-        if b2 and isinstance(b2[0], ast.Expr) and isinstance(b2[0].value, ast.Constant) and isinstance(b2[0].value.value, str):
-            b2 = b2[1:]
-        fake2.body = [ast.Return(value=copy.deepcopy(b2[-1].body[-1].value.value))]
-        # locals of the whole generator must be renamed identically: give fake2 the same set of locals by keeping dummy stores
-        fake2.body = [ast.Assign(targets=[ast.Name(id=n, ctx=ast.Store())], value=ast.Constant(value=None)) for n in sorted(_locals_of(g))
-                      if n not in {a.arg for a in g.args.args + g.args.kwonlyargs}] + fake2.body
-        ex2 = _expand(c, fake2, tag, s)
-        if ex2 is None:
-            return None
-        DEFAULTED.pop()
-        _, yexpr = ex2
-        bind = ast.Assign(targets=[copy.deepcopy(s.target)], value=yexpr)
-        for t in ast.walk(bind.targets[0]):
-            if isinstance(t, (ast.Name, ast.Tuple, ast.List, ast.Starred)):
-                t.ctx = ast.Store()
-        ast.copy_location(bind, s)
-        mapping_loop.body = list(mapping_loop.body) + [bind] + list(s.body)
-        ast.fix_missing_locations(mapping_loop)
+
+        def weave(blk):
+            out = []
+            for st in blk:
+                if isinstance(st, ast.Expr) and isinstance(st.value, ast.Call) and isinstance(st.value.func, ast.Name) \
+                        and st.value.func.id == '__yield__':
+                    bind = ast.Assign(targets=[copy.deepcopy(s.target)], value=st.value.args[0], type_comment=None)
+                    for t in ast.walk(bind.targets[0]):
+                        if isinstance(t, (ast.Name, ast.Tuple, ast.List, ast.Starred)):
+                            t.ctx = ast.Store()
+                    ast.copy_location(bind, s)
+                    out.append(bind)
+                    out += [copy.deepcopy(x) for x in s.body]
+                    continue
+                for fld in ('body', 'orelse', 'finalbody'):
+                    sub = getattr(st, fld, None)
+                    if isinstance(sub, list):
+                        setattr(st, fld, weave(sub))
+                out.append(st)
+            return out
+        pre = weave(pre)
+        for st in pre:
+            ast.fix_missing_locations(st)
         self.done += 1
         return pre
 
@@ -728,11 +726,774 @@ class _Idioms(ast.NodeTransformer):
         return ast.copy_location(ast.Subscript(value=arr, slice=sl, ctx=ast.Load()), node)
 
 
+class _SubstConst(ast.NodeTransformer):
+    def __init__(self, mapping):
+        self.m = mapping          # name -> expression to substitute for Load occurrences
+
+    def visit_Name(self, node):
+        if isinstance(node.ctx, ast.Load) and node.id in self.m:
+            return ast.copy_location(copy.deepcopy(self.m[node.id]), node)
+        return node
+
+
+_UNROLL_MAX = 6
+
+
+def _unroll_literal_loops(fn: ast.FunctionDef) -> int:
+    """`for T in X` / `for i, T in enumerate(X)` / `for T1, T2 in zip(X1, X2)` where every X is a tuple / list display of at most
+    _UNROLL_MAX elements written in the loop header, or a local that is bound once to such a display and read only by this loop:
+    the loop is unrolled.  Iteration k binds the loop targets to the k-th elements under names of their own (`v__k`; a plain-literal
+    element or the enumerate index is substituted as a constant), so that records built in the display become single-assignment
+    locals and constant keys / slots appear as constants.  Not done when the body has break / continue / else, when a target is
+    read after the loop, or when a target is assigned inside the body."""
+    done = 0
+    stores: Dict[str, int] = {}
+    loads: Dict[str, int] = {}
+    for n in ast.walk(fn):
+        if isinstance(n, ast.Name):
+            d = stores if isinstance(n.ctx, (ast.Store, ast.Del)) else loads
+            d[n.id] = d.get(n.id, 0) + 1
+    params = {a.arg for a in fn.args.args + fn.args.kwonlyargs + fn.args.posonlyargs}
+    single_defs = {}
+    for n in ast.walk(fn):
+        if isinstance(n, ast.Assign) and len(n.targets) == 1 and isinstance(n.targets[0], ast.Name) and isinstance(n.value, (ast.Tuple, ast.List)):
+            v = n.targets[0].id
+            if stores.get(v) == 1 and loads.get(v) == 1 and v not in params:
+                single_defs[v] = n
+
+    def display(e):
+        if isinstance(e, (ast.Tuple, ast.List)) and isinstance(e.ctx, ast.Load):
+            d = e
+        elif isinstance(e, ast.Name) and e.id in single_defs:
+            d = single_defs[e.id].value
+        else:
+            return None
+        if not d.elts or len(d.elts) > _UNROLL_MAX or any(isinstance(x, ast.Starred) for x in d.elts):
+            return None
+        return d
+
+    def unroll(loop: ast.For):
+        if loop.orelse or any(isinstance(x, (ast.Break, ast.Continue, ast.Yield, ast.YieldFrom)) for st in loop.body for x in ast.walk(st)):
+            return None
+        it = loop.iter
+        idx_target = None
+        if isinstance(it, ast.Call) and isinstance(it.func, ast.Name) and it.func.id == 'enumerate' and len(it.args) == 1 and not it.keywords:
+            if not (isinstance(loop.target, ast.Tuple) and len(loop.target.elts) == 2 and isinstance(loop.target.elts[0], ast.Name)):
+                return None
+            idx_target, tgt, it = loop.target.elts[0].id, loop.target.elts[1], it.args[0]
+        else:
+            tgt = loop.target
+        if isinstance(it, ast.Call) and isinstance(it.func, ast.Name) and it.func.id == 'zip' and it.args and not it.keywords:
+            ds = [display(a) for a in it.args]
+            if any(d is None for d in ds) or len({len(d.elts) for d in ds}) != 1:
+                return None
+            if not (isinstance(tgt, ast.Tuple) and len(tgt.elts) == len(ds)):
+                return None
+            rows = [[d.elts[k] for d in ds] for k in range(len(ds[0].elts))]
+            tgts = list(tgt.elts)
+        else:
+            d = display(it)
+            if d is None:
+                return None
+            rows = [[e] for e in d.elts]
+            tgts = [tgt]
+        # flatten tuple targets against tuple elements: for a, b in ((x, y), (z, w))
+        flat_t, flat_rows = [], [[] for _ in rows]
+        for j, t in enumerate(tgts):
+            if isinstance(t, ast.Name):
+                flat_t.append(t.id)
+                for k, r in enumerate(rows):
+                    flat_rows[k].append(r[j])
+            elif isinstance(t, ast.Tuple) and all(isinstance(x, ast.Name) for x in t.elts) \
+                    and all(isinstance(r[j], (ast.Tuple, ast.List)) and len(r[j].elts) == len(t.elts)
+                            and not any(isinstance(x, ast.Starred) for x in r[j].elts) for r in rows):
+                flat_t += [x.id for x in t.elts]
+                for k, r in enumerate(rows):
+                    flat_rows[k] += list(r[j].elts)
+            else:
+                return None
+        names = flat_t + ([idx_target] if idx_target else [])
+        if len(set(names)) != len(names):
+            return None
+        inside_loads = {}
+        body_stores = set()
+        for st in loop.body:
+            for x in ast.walk(st):
+                if isinstance(x, ast.Name):
+                    if isinstance(x.ctx, ast.Load):
+                        inside_loads[x.id] = inside_loads.get(x.id, 0) + 1
+                    else:
+                        body_stores.add(x.id)
+        for nm in names:
+            if nm in body_stores or nm in params or loads.get(nm, 0) != inside_loads.get(nm, 0) or stores.get(nm, 0) != 1:
+                return None
+        temporaries = []
+        seen_first: Dict[str, str] = {}
+        for st in loop.body:
+            if isinstance(st, ast.Assign) and len(st.targets) == 1 and isinstance(st.targets[0], ast.Name):
+                for x in ast.walk(st.value):
+                    if isinstance(x, ast.Name):
+                        seen_first.setdefault(x.id, 'load')
+                seen_first.setdefault(st.targets[0].id, 'store')
+            else:
+                for x in ast.walk(st):
+                    if isinstance(x, ast.Name):
+                        seen_first.setdefault(x.id, 'load' if isinstance(x.ctx, ast.Load) else 'nested-store')
+        for nm, how in seen_first.items():
+            if how == 'store' and nm not in params and nm not in names and loads.get(nm, 0) == inside_loads.get(nm, 0) \
+                    and stores.get(nm, 0) == sum(1 for st in loop.body for x in ast.walk(st)
+                                                 if isinstance(x, ast.Name) and x.id == nm and isinstance(x.ctx, ast.Store)):
+                temporaries.append(nm)
+        out = []
+        for k, r in enumerate(flat_rows):
+            ren, sub = {}, {}
+            pre = []
+            for nm, e in zip(flat_t, r):
+                if _is_plain_literal(e) or isinstance(e, ast.Name):
+                    sub[nm] = e
+                else:
+                    ren[nm] = f'{nm}__{k}'
+                    a = ast.Assign(targets=[ast.Name(id=ren[nm], ctx=ast.Store())], value=copy.deepcopy(e), type_comment=None)
+                    pre.append(ast.copy_location(a, loop))
+            if idx_target:
+                sub[idx_target] = ast.Constant(value=k)
+            body = [copy.deepcopy(st) for st in loop.body]
+            # a name whose first occurrence in the body is a top-level plain store and that is not read outside the loop is a
+            # per-iteration temporary: it gets a name per iteration; other names assigned in the body keep theirs (loop-carried)
+            for tmp in temporaries:
+                ren[tmp] = f'{tmp}__{k}'
+            for i, st in enumerate(body):
+                if ren:
+                    st = _Rename(ren).visit(st)
+                if sub:
+                    st = _SubstConst(sub).visit(st)
+                body[i] = st
+            out += pre + body
+        for st in out:
+            ast.fix_missing_locations(st)
+        return out
+
+    def walk_block(blk):
+        nonlocal done
+        new = []
+        for st in blk:
+            for fld in ('body', 'orelse', 'finalbody'):
+                sub = getattr(st, fld, None)
+                if isinstance(sub, list) and not isinstance(st, (ast.FunctionDef, ast.ClassDef, ast.Lambda)):
+                    setattr(st, fld, walk_block(sub))
+            for h in getattr(st, 'handlers', []) or []:
+                h.body = walk_block(h.body)
+            if isinstance(st, ast.For):
+                u = unroll(st)
+                if u is not None:
+                    # a display bound to a local only for this loop is no longer read
+                    if isinstance(st.iter, ast.Name):
+                        dead.add(st.iter.id)
+                    for a in getattr(st.iter, 'args', []) if isinstance(st.iter, ast.Call) else []:
+                        for x in ast.walk(a):
+                            if isinstance(x, ast.Name) and x.id in single_defs:
+                                dead.add(x.id)
+                    new += u
+                    done += 1
+                    continue
+            new.append(st)
+        return new
+
+    dead: Set[str] = set()
+    fn.body = walk_block(fn.body)
+    if dead:
+        class Drop(ast.NodeTransformer):
+            def visit_Assign(s, node):
+                if node in [single_defs[d] for d in dead if d in single_defs]:
+                    return None
+                return node
+        Drop().visit(fn)
+        for n in ast.walk(fn):
+            for fld in ('body', 'orelse', 'finalbody'):
+                b = getattr(n, fld, None)
+                if isinstance(b, list) and not b and fld == 'body':
+                    b.append(ast.Pass())
+    if done:
+        ast.fix_missing_locations(fn)
+    return done
+
+
+class _AttrFold(ast.NodeTransformer):
+    """getattr(x, 'name') -> x.name;  setattr(x, 'name', v) as a statement -> x.name = v   (constant identifier names only)"""
+
+    def visit_Call(self, node):
+        node = self.generic_visit(node)
+        if isinstance(node.func, ast.Name) and node.func.id == 'getattr' and len(node.args) == 2 and not node.keywords \
+                and isinstance(node.args[1], ast.Constant) and isinstance(node.args[1].value, str) and node.args[1].value.isidentifier():
+            return ast.copy_location(ast.Attribute(value=node.args[0], attr=node.args[1].value, ctx=ast.Load()), node)
+        return node
+
+    def visit_Expr(self, node):
+        node = self.generic_visit(node)
+        c = node.value
+        if isinstance(c, ast.Call) and isinstance(c.func, ast.Name) and c.func.id == 'setattr' and len(c.args) == 3 and not c.keywords \
+                and isinstance(c.args[1], ast.Constant) and isinstance(c.args[1].value, str) and c.args[1].value.isidentifier():
+            return ast.copy_location(ast.Assign(targets=[ast.Attribute(value=c.args[0], attr=c.args[1].value, ctx=ast.Store())],
+                                                value=c.args[2], type_comment=None), node)
+        return node
+
+
+class _MatchDesugar(ast.NodeTransformer):
+    """`match subject: case P [if g]: body` -> an if / elif chain the engines understand:
+         case str() / np.ndarray()        isinstance(subject, str)
+         case None / True                  subject is None
+         case 3 | 'a'                      subject == 3 or subject == 'a'
+         case _                            else
+         case P as name / capture name     test of P; `name = subject` first in the body
+         sequence / mapping / sub-patterns an opaque test `__match__(subject)`; captured names are bound to the subject
+    The subject is evaluated once into a temporary when it is not a plain name."""
+
+    def __init__(self):
+        self.n = 0
+
+    def _test(self, pat, subj, binds):
+        if isinstance(pat, ast.MatchValue):
+            return ast.Compare(left=subj(), ops=[ast.Eq()], comparators=[pat.value])
+        if isinstance(pat, ast.MatchSingleton):
+            return ast.Compare(left=subj(), ops=[ast.Is()], comparators=[ast.Constant(value=pat.value)])
+        if isinstance(pat, ast.MatchOr):
+            return ast.BoolOp(op=ast.Or(), values=[self._test(p_, subj, binds) or ast.Constant(value=True) for p_ in pat.patterns])
+        if isinstance(pat, ast.MatchAs):
+            if pat.name is not None:
+                binds.append(pat.name)
+            if pat.pattern is None:
+                return None            # irrefutable
+            return self._test(pat.pattern, subj, binds)
+        if isinstance(pat, ast.MatchClass):
+            t = ast.Call(func=ast.Name(id='isinstance', ctx=ast.Load()), args=[subj(), pat.cls], keywords=[])
+            subs = list(pat.patterns) + list(pat.kwd_patterns)
+            if subs:
+                for sp in subs:
+                    self._captures(sp, binds)
+                t = ast.BoolOp(op=ast.And(), values=[t, ast.Call(func=ast.Name(id='__match__', ctx=ast.Load()), args=[subj()], keywords=[])])
+            return t
+        self._captures(pat, binds)
+        return ast.Call(func=ast.Name(id='__match__', ctx=ast.Load()), args=[subj()], keywords=[])
+
+    def _captures(self, pat, binds):
+        for n in ast.walk(pat):
+            if isinstance(n, ast.MatchAs) and n.name is not None:
+                binds.append(n.name)
+            elif isinstance(n, ast.MatchStar) and n.name is not None:
+                binds.append(n.name)
+            elif isinstance(n, ast.MatchMapping) and n.rest is not None:
+                binds.append(n.rest)
+
+    def visit_Match(self, node: ast.Match):
+        self.generic_visit(node)
+        pre = []
+        if isinstance(node.subject, ast.Name):
+            sname = node.subject.id
+        elif isinstance(node.subject, ast.NamedExpr) and isinstance(node.subject.target, ast.Name):
+            # match value := expr:   the walrus target IS the subject
+            sname = node.subject.target.id
+            pre.append(ast.Assign(targets=[ast.Name(id=sname, ctx=ast.Store())], value=node.subject.value, type_comment=None))
+        else:
+            self.n += 1
+            sname = f'__m{self.n}'
+            pre.append(ast.Assign(targets=[ast.Name(id=sname, ctx=ast.Store())], value=node.subject, type_comment=None))
+
+        def subj():
+            return ast.Name(id=sname, ctx=ast.Load())
+        chain = None
+        tail = None
+        for case in node.cases:
+            binds: List[str] = []
+            t = self._test(case.pattern, subj, binds)
+            body = [ast.Assign(targets=[ast.Name(id=b, ctx=ast.Store())], value=subj(), type_comment=None) for b in binds if b != sname] \
+                + list(case.body)
+            if case.guard is not None:
+                t = case.guard if t is None else ast.BoolOp(op=ast.And(), values=[t, case.guard])
+                if binds:
+                    # the guard may read the captures: bind them before the chain (conservative)
+                    pre += [ast.Assign(targets=[ast.Name(id=b, ctx=ast.Store())], value=subj(), type_comment=None) for b in binds if b != sname]
+            if t is None:
+                if tail is None:
+                    chain = body if chain is None else chain
+                    if chain is body:
+                        pre += body
+                        chain = []
+                else:
+                    tail.orelse = body
+                break
+            new_if = ast.If(test=t, body=body, orelse=[])
+            if tail is None:
+                chain = [new_if]
+            else:
+                tail.orelse = [new_if]
+            tail = new_if
+        out = pre + (chain if isinstance(chain, list) else [])
+        for st in out:
+            ast.copy_location(st, node)
+            ast.fix_missing_locations(st)
+        return out or [ast.copy_location(ast.Pass(), node)]
+
+
+class _ConstFold(ast.NodeTransformer):
+    """constant conditions: comparison of two constants, issubclass of two classes of the module, `if <const>`, `a if <const> else b`"""
+
+    def __init__(self, bases):
+        self.bases = bases          # class name -> [base names] for the classes of this module
+        self.changed = False
+
+    def _is_sub(self, a, b):
+        seen, todo = set(), [a]
+        while todo:
+            c = todo.pop()
+            if c == b:
+                return True
+            if c in seen:
+                continue
+            seen.add(c)
+            todo += self.bases.get(c, [])
+        return False
+
+    def visit_Call(self, node):
+        node = self.generic_visit(node)
+        if isinstance(node.func, ast.Name) and node.func.id == 'issubclass' and len(node.args) == 2 and not node.keywords \
+                and all(isinstance(a, ast.Name) and a.id in self.bases for a in node.args):
+            self.changed = True
+            return ast.copy_location(ast.Constant(value=self._is_sub(node.args[0].id, node.args[1].id)), node)
+        return node
+
+    def visit_Compare(self, node):
+        node = self.generic_visit(node)
+        if len(node.ops) == 1 and isinstance(node.left, ast.Constant):
+            r, op = node.comparators[0], node.ops[0]
+            val = None
+            if isinstance(r, ast.Constant) and type(r.value) is type(node.left.value) or \
+                    (isinstance(r, ast.Constant) and (r.value is None or node.left.value is None)):
+                if isinstance(op, ast.Eq):
+                    val = node.left.value == r.value
+                elif isinstance(op, ast.NotEq):
+                    val = node.left.value != r.value
+                elif isinstance(op, ast.Is) and (r.value is None or node.left.value is None):
+                    val = node.left.value is r.value
+                elif isinstance(op, ast.IsNot) and (r.value is None or node.left.value is None):
+                    val = node.left.value is not r.value
+            elif isinstance(r, (ast.Tuple, ast.List, ast.Set)) and all(isinstance(e, ast.Constant) for e in r.elts) \
+                    and isinstance(op, (ast.In, ast.NotIn)):
+                val = (node.left.value in [e.value for e in r.elts]) == isinstance(op, ast.In)
+            if val is not None:
+                self.changed = True
+                return ast.copy_location(ast.Constant(value=bool(val)), node)
+        return node
+
+    def visit_IfExp(self, node):
+        node = self.generic_visit(node)
+        if isinstance(node.test, ast.Constant) and isinstance(node.test.value, bool):
+            self.changed = True
+            return node.body if node.test.value else node.orelse
+        return node
+
+    def visit_If(self, node):
+        node.test = self.visit(node.test)
+        if isinstance(node.test, ast.Constant) and isinstance(node.test.value, bool):
+            self.changed = True
+            return self._stmts(node.body if node.test.value else node.orelse) or [ast.copy_location(ast.Pass(), node)]
+        node.body = self._stmts(node.body) or [ast.copy_location(ast.Pass(), node)]
+        node.orelse = self._stmts(node.orelse)
+        return node
+
+    def _stmts(self, stmts):
+        out = []
+        for st in stmts:
+            r = self.visit(st)
+            out += r if isinstance(r, list) else [r]
+        return out
+
+
+def _fuse_genexp_loops(fn: ast.FunctionDef) -> int:
+    """`g = (E for T in IT if C)` bound once and read once, as the iterable of `for X in g` / `for i, X in enumerate(g)` (possibly
+    through single-use copies `h = g`):   for T in IT: if C: X = E; <body>   (enumerate only without a condition).  The
+    comprehension variable is renamed when the function uses its name elsewhere."""
+    done = 0
+    for _ in range(4):
+        stores: Dict[str, List[ast.Assign]] = {}
+        nstores: Dict[str, int] = {}
+        loads: Dict[str, int] = {}
+        for n in ast.walk(fn):
+            if isinstance(n, ast.Name):
+                if isinstance(n.ctx, ast.Load):
+                    loads[n.id] = loads.get(n.id, 0) + 1
+                else:
+                    nstores[n.id] = nstores.get(n.id, 0) + 1
+            if isinstance(n, ast.Assign) and len(n.targets) == 1 and isinstance(n.targets[0], ast.Name):
+                stores.setdefault(n.targets[0].id, []).append(n)
+        params = {a.arg for a in fn.args.args + fn.args.kwonlyargs + fn.args.posonlyargs}
+
+        def source(name, depth=0):
+            """(genexp, [assign statements that become dead]) for a name bound once to a generator expression / list comprehension and
+            read once"""
+            if depth > 4 or name in params or nstores.get(name) != 1 or loads.get(name) != 1 or len(stores.get(name, [])) != 1:
+                return None
+            a = stores[name][0]
+            if isinstance(a.value, (ast.GeneratorExp, ast.ListComp)):
+                return a.value, [a]
+            if isinstance(a.value, ast.Name):
+                r = source(a.value.id, depth + 1)
+                if r is not None:
+                    return r[0], r[1] + [a]
+            return None
+        def local_source(lp, name):
+            """one binding per arm of a branch: every store of the name is `name = <comprehension>` directly followed (nothing that
+            mentions the name in between) by its only reader in the same block"""
+            if name in params or nstores.get(name, 0) != len(stores.get(name, [])) or loads.get(name, 0) != nstores.get(name, 0):
+                return None
+            if not all(isinstance(a.value, (ast.GeneratorExp, ast.ListComp)) for a in stores[name]):
+                return None
+            pairs = 0
+            mine = None
+            for holder in ast.walk(fn):
+                for fld in ('body', 'orelse', 'finalbody'):
+                    blk = getattr(holder, fld, None)
+                    if not isinstance(blk, list):
+                        continue
+                    for j, st in enumerate(blk):
+                        if st in stores[name]:
+                            nxt = next((s2 for s2 in blk[j + 1:] if any(isinstance(x, ast.Name) and x.id == name for x in ast.walk(s2))), None)
+                            if nxt is None or sum(1 for x in ast.walk(nxt) if isinstance(x, ast.Name) and x.id == name) != 1 \
+                                    or any(isinstance(x, ast.Name) and x.id == name and not isinstance(x.ctx, ast.Load) for x in ast.walk(nxt)):
+                                return None
+                            pairs += 1
+                            if nxt is lp:
+                                mine = st
+            if pairs != len(stores[name]) or mine is None:
+                return None
+            return mine.value, [mine]
+        target = None
+        for lp in ast.walk(fn):
+            if not isinstance(lp, ast.For):
+                continue
+            it, enum = lp.iter, False
+            if isinstance(it, ast.Call) and isinstance(it.func, ast.Name) and it.func.id == 'enumerate' and len(it.args) == 1 and not it.keywords \
+                    and isinstance(lp.target, ast.Tuple) and len(lp.target.elts) == 2:
+                it, enum = it.args[0], True
+            if not isinstance(it, ast.Name):
+                continue
+            r = source(it.id) or local_source(lp, it.id)
+            if r is None:
+                continue
+            comp, dead = r
+            if len(comp.generators) != 1 or comp.generators[0].is_async or (enum and comp.generators[0].ifs):
+                continue
+            target = (lp, comp, dead, enum)
+            break
+        if target is None:
+            break
+        lp, comp, dead, enum = target
+        g = comp.generators[0]
+        elt, gtarget, giter, gifs = copy.deepcopy(comp.elt), copy.deepcopy(g.target), g.iter, [copy.deepcopy(c) for c in g.ifs]
+        # the comprehension variable has its own scope: rename when the name is used by the function
+        ren = {}
+        for x in ast.walk(gtarget):
+            if isinstance(x, ast.Name) and (x.id in params or loads.get(x.id, 0) + nstores.get(x.id, 0) >
+                                            sum(1 for y in ast.walk(comp) if isinstance(y, ast.Name) and y.id == x.id)):
+                ren[x.id] = f'__cx_{x.id}'
+        if ren:
+            elt = _Rename(ren).visit(elt)
+            gtarget = _Rename(ren).visit(gtarget)
+            gifs = [_Rename(ren).visit(c) for c in gifs]
+        inner_target = lp.target.elts[1] if enum else lp.target
+        bind = ast.Assign(targets=[inner_target], value=elt, type_comment=None)
+        ast.copy_location(bind, lp)
+        body = [bind] + lp.body
+        for c in reversed(gifs):
+            body = [ast.copy_location(ast.If(test=c, body=body, orelse=[]), lp)]
+        if enum:
+            lp.target = ast.Tuple(elts=[lp.target.elts[0], gtarget], ctx=ast.Store())
+            lp.iter.args[0] = giter
+        else:
+            lp.target = gtarget
+            lp.iter = giter
+        for x in ast.walk(lp.target):
+            if isinstance(x, (ast.Name, ast.Tuple, ast.List)):
+                x.ctx = ast.Store()
+        lp.body = body
+        dead_ids = {id(a) for a in dead}
+        for holder in ast.walk(fn):
+            for fld in ('body', 'orelse', 'finalbody'):
+                blk = getattr(holder, fld, None)
+                if isinstance(blk, list) and any(id(x) in dead_ids for x in blk):
+                    blk[:] = [x for x in blk if id(x) not in dead_ids] or [ast.Pass()]
+        ast.fix_missing_locations(fn)
+        done += 1
+    return done
+
+
+def _partial_eval(fn: ast.FunctionDef, bases: Dict[str, List[str]]) -> int:
+    """After inlining, a function that received the body of a table- or flag-driven helper is specialised for the constants it was
+    called with: single-assignment locals bound to literals are propagated, constant conditions are folded, `L = [..]; L.append(x)`
+    becomes one display, loops over displays are unrolled, getattr / setattr with a constant name become attribute accesses, and a
+    single-assignment tuple used as an index is written into the subscript (`slice(None)` as `:`).  To a fixpoint (bounded)."""
+    total = 0
+    for _ in range(4):
+        changed = 0
+        stores: Dict[str, int] = {}
+        for n in ast.walk(fn):
+            if isinstance(n, ast.Name) and isinstance(n.ctx, (ast.Store, ast.Del)):
+                stores[n.id] = stores.get(n.id, 0) + 1
+        params = {a.arg for n in ast.walk(fn) if isinstance(n, ast.arguments) for a in n.args + n.kwonlyargs + n.posonlyargs} | \
+            {n.vararg.arg for n in ast.walk(fn) if isinstance(n, ast.arguments) and n.vararg} | \
+            {n.kwarg.arg for n in ast.walk(fn) if isinstance(n, ast.arguments) and n.kwarg}
+        # (a) literal single-assignment locals (top-level statements of the function or of any block: one store in the whole function)
+        lit: Dict[str, ast.expr] = {}
+        idx: Dict[str, ast.expr] = {}
+        for n in ast.walk(fn):
+            if isinstance(n, ast.Assign) and len(n.targets) == 1 and isinstance(n.targets[0], ast.Name):
+                v = n.targets[0].id
+                if stores.get(v) != 1 or v in params:
+                    continue
+                if isinstance(n.value, ast.Constant) and isinstance(n.value.value, (str, int, bool, type(None))) \
+                        and not isinstance(n.value.value, float):
+                    lit[v] = n.value
+                elif _attr_path(n.value) is not None and v.startswith('__h'):
+                    # `__hK_x = self.a.b` (a helper's local bound to a field of an argument): the path itself, unless the function
+                    # stores to an attribute of that name or rebinds the root
+                    root, attrs = _attr_path(n.value)
+                    if stores.get(root, 0) == 0 and root in params and not any(
+                            isinstance(x, ast.Attribute) and isinstance(x.ctx, (ast.Store, ast.Del)) and x.attr in attrs for x in ast.walk(fn)):
+                        lit[v] = n.value
+                elif isinstance(n.value, ast.Tuple) and n.value.elts and all(
+                        (isinstance(e, ast.Name) and (stores.get(e.id, 0) == 1 or (e.id in params and stores.get(e.id, 0) == 0)))
+                        or _is_slice_none(e) for e in n.value.elts) and any(_is_slice_none(e) for e in n.value.elts):
+                    idx[v] = n.value
+        if lit or idx:
+            class Sub(ast.NodeTransformer):
+                def visit_Name(s, node):
+                    nonlocal changed
+                    if isinstance(node.ctx, ast.Load) and node.id in lit:
+                        changed += 1
+                        return ast.copy_location(copy.deepcopy(lit[node.id]), node)
+                    return node
+
+                def visit_Subscript(s, node):
+                    nonlocal changed
+                    node = s.generic_visit(node)
+                    if isinstance(node.slice, ast.Name) and node.slice.id in idx:
+                        changed += 1
+                        node.slice = ast.copy_location(ast.Tuple(
+                            elts=[ast.Slice(lower=None, upper=None, step=None) if _is_slice_none(e) else copy.deepcopy(e)
+                                  for e in idx[node.slice.id].elts], ctx=ast.Load()), node.slice)
+                    return node
+
+                def visit_FunctionDef(s, node):
+                    return node if node is not fn else s.generic_visit(node)
+
+                def visit_Lambda(s, node):
+                    return node
+            Sub().visit(fn)
+        # (b) constant conditions
+        cf = _ConstFold(bases)
+        fn.body = cf._stmts(fn.body) or [ast.Pass()]
+        changed += 1 if cf.changed else 0
+        # (c) L = [..]; L.append(x)  in one block, nothing that mentions L in between
+        for holder in [n for n in ast.walk(fn) if isinstance(getattr(n, 'body', None), list)]:
+            for fld in ('body', 'orelse', 'finalbody'):
+                blk = getattr(holder, fld, None)
+                if not isinstance(blk, list):
+                    continue
+                i = 0
+                while i < len(blk):
+                    st = blk[i]
+                    if isinstance(st, ast.Assign) and len(st.targets) == 1 and isinstance(st.targets[0], ast.Name) \
+                            and isinstance(st.value, ast.List) and not any(isinstance(e, ast.Starred) for e in st.value.elts):
+                        v = st.targets[0].id
+                        j = i + 1
+                        while j < len(blk):
+                            s2 = blk[j]
+                            if isinstance(s2, ast.Expr) and isinstance(s2.value, ast.Call) and isinstance(s2.value.func, ast.Attribute) \
+                                    and s2.value.func.attr == 'append' and isinstance(s2.value.func.value, ast.Name) \
+                                    and s2.value.func.value.id == v and len(s2.value.args) == 1 and not s2.value.keywords \
+                                    and not any(isinstance(x, ast.Name) and x.id == v for x in ast.walk(s2.value.args[0])):
+                                st.value.elts.append(s2.value.args[0])
+                                del blk[j]
+                                changed += 1
+                                continue
+                            if any(isinstance(x, ast.Name) and x.id == v for x in ast.walk(s2)):
+                                break
+                            if isinstance(s2, ast.Pass):
+                                j += 1
+                                continue
+                            j += 1
+                    i += 1
+        # (d) loops over displays, (e) getattr / setattr, (f) loops over a generator expression bound to a local
+        changed += _unroll_literal_loops(fn)
+        changed += _fuse_genexp_loops(fn)
+        before = ast.dump(fn) if changed == 0 else None
+        _AttrFold().visit(fn)
+        if before is not None and ast.dump(fn) != before:
+            changed += 1
+        ast.fix_missing_locations(fn)
+        total += changed
+        if not changed:
+            break
+    return total
+
+
+def _attr_path(e):
+    attrs = []
+    while isinstance(e, ast.Attribute):
+        attrs.append(e.attr)
+        e = e.value
+    if isinstance(e, ast.Name) and attrs:
+        return e.id, attrs
+    return None
+
+
+def _is_slice_none(e) -> bool:
+    return isinstance(e, ast.Call) and isinstance(e.func, ast.Name) and e.func.id == 'slice' and len(e.args) == 1 and not e.keywords \
+        and isinstance(e.args[0], ast.Constant) and e.args[0].value is None
+
+
+def _desugar_collectors(fn: ast.FunctionDef, generators: Set[str]) -> int:
+    """`t = dict(chain(P1, P2, ..))`, `t = dict(P)`, `t = list(chain(..))`, `t = list(P)` where some piece P is a call of a new
+    generator: the collection is built by statements, `t = {}` / `t = []` followed, per piece, by
+        display of pairs [(k, v), ..]    t[k] = v                       (list: t.append(x))
+        generator call g(..)             for __k, __v in g(..): t[__k] = __v     (then fused with the generator's body)
+        X.items() / any other iterable   for __k, __v in X.items(): t[__k] = __v
+    so that the generator fusion and the rules see ordinary stores."""
+    done = 0
+    counter = [0]
+
+    def pieces_of(e):
+        if isinstance(e, ast.Call) and not e.keywords and (
+                (isinstance(e.func, ast.Name) and e.func.id == 'chain') or
+                (isinstance(e.func, ast.Attribute) and e.func.attr == 'chain' and isinstance(e.func.value, ast.Name)
+                 and e.func.value.id == 'itertools')):
+            if any(isinstance(a, ast.Starred) for a in e.args):
+                return None
+            return list(e.args)
+        return [e]
+
+    def build(st):
+        if not (isinstance(st, ast.Assign) and len(st.targets) == 1 and isinstance(st.targets[0], ast.Name) and isinstance(st.value, ast.Call)
+                and isinstance(st.value.func, ast.Name) and st.value.func.id in ('dict', 'list') and len(st.value.args) == 1
+                and not st.value.keywords):
+            return None
+        kind = st.value.func.id
+        ps = pieces_of(st.value.args[0])
+        if not ps or not any(isinstance(p, ast.Call) and isinstance(p.func, ast.Name) and p.func.id in generators for p in ps):
+            return None
+        t = st.targets[0].id
+        if any(isinstance(x, ast.Name) and x.id == t for p in ps for x in ast.walk(p)):
+            return None
+        out = [ast.Assign(targets=[ast.Name(id=t, ctx=ast.Store())],
+                          value=ast.Dict(keys=[], values=[]) if kind == 'dict' else ast.List(elts=[], ctx=ast.Load()), type_comment=None)]
+
+        def store(k, v):
+            if kind == 'dict':
+                return ast.Assign(targets=[ast.Subscript(value=ast.Name(id=t, ctx=ast.Load()), slice=k, ctx=ast.Store())], value=v,
+                                  type_comment=None)
+            return ast.Expr(value=ast.Call(func=ast.Attribute(value=ast.Name(id=t, ctx=ast.Load()), attr='append', ctx=ast.Load()),
+                                           args=[v], keywords=[]))
+        for p in ps:
+            if isinstance(p, (ast.List, ast.Tuple)):
+                for e in p.elts:
+                    if kind == 'dict':
+                        if not (isinstance(e, ast.Tuple) and len(e.elts) == 2):
+                            return None
+                        out.append(store(e.elts[0], e.elts[1]))
+                    else:
+                        if isinstance(e, ast.Starred):
+                            return None
+                        out.append(store(None, e))
+            else:
+                counter[0] += 1
+                if kind == 'dict':
+                    kn, vn = f'__ck{counter[0]}', f'__cv{counter[0]}'
+                    tgt = ast.Tuple(elts=[ast.Name(id=kn, ctx=ast.Store()), ast.Name(id=vn, ctx=ast.Store())], ctx=ast.Store())
+                    body = [store(ast.Name(id=kn, ctx=ast.Load()), ast.Name(id=vn, ctx=ast.Load()))]
+                else:
+                    vn = f'__cv{counter[0]}'
+                    tgt = ast.Name(id=vn, ctx=ast.Store())
+                    body = [store(None, ast.Name(id=vn, ctx=ast.Load()))]
+                out.append(ast.For(target=tgt, iter=p, body=body, orelse=[], type_comment=None))
+        for o in out:
+            ast.copy_location(o, st)
+            ast.fix_missing_locations(o)
+        return out
+
+    def walk(blk):
+        nonlocal done
+        new = []
+        for st in blk:
+            for fld in ('body', 'orelse', 'finalbody'):
+                sub = getattr(st, fld, None)
+                if isinstance(sub, list) and not isinstance(st, (ast.FunctionDef, ast.ClassDef)):
+                    setattr(st, fld, walk(sub))
+            b = build(st)
+            if b is not None:
+                new += b
+                done += 1
+            else:
+                new.append(st)
+        return new
+    def is_collector(e):
+        if not (isinstance(e, ast.Call) and isinstance(e.func, ast.Name) and e.func.id in ('dict', 'list') and len(e.args) == 1
+                and not e.keywords):
+            return False
+        ps = pieces_of(e.args[0])
+        return bool(ps) and any(isinstance(p, ast.Call) and isinstance(p.func, ast.Name) and p.func.id in generators for p in ps)
+
+    def hoist(blk):
+        new = []
+        for st in blk:
+            for fld in ('body', 'orelse', 'finalbody'):
+                sub = getattr(st, fld, None)
+                if isinstance(sub, list) and not isinstance(st, (ast.FunctionDef, ast.ClassDef)):
+                    setattr(st, fld, hoist(sub))
+            if isinstance(st, (ast.Assign, ast.Expr, ast.Return, ast.AugAssign)) and st.value is not None \
+                    and not (isinstance(st, ast.Assign) and is_collector(st.value) and len(st.targets) == 1 and isinstance(st.targets[0], ast.Name)):
+                found = [e for e in ast.walk(st.value) if is_collector(e)
+                         and not any(isinstance(x, (ast.Lambda, ast.GeneratorExp, ast.ListComp, ast.DictComp, ast.SetComp, ast.IfExp, ast.BoolOp))
+                                     and any(y is e for y in ast.walk(x)) for x in ast.walk(st.value))]
+                for e in found[:1]:
+                    counter[0] += 1
+                    nm = f'__cc{counter[0]}'
+                    a = ast.Assign(targets=[ast.Name(id=nm, ctx=ast.Store())], value=copy.copy(e), type_comment=None)
+                    ast.copy_location(a, st)
+                    ast.fix_missing_locations(a)
+                    new.append(a)
+                    # replace e by the temporary, in place
+                    e.func = ast.Name(id='__identity__', ctx=ast.Load())
+                    e.args = [ast.Name(id=nm, ctx=ast.Load())]
+                    ast.fix_missing_locations(e)
+            new.append(st)
+        return new
+    fn.body = hoist(fn.body)
+
+    class DropIdentity(ast.NodeTransformer):
+        def visit_Call(s, node):
+            node = s.generic_visit(node)
+            if isinstance(node.func, ast.Name) and node.func.id == '__identity__':
+                return node.args[0]
+            return node
+    DropIdentity().visit(fn)
+    fn.body = walk(fn.body)
+    return done
+
+
 def inline_new_helpers(tree: ast.Module, module: str) -> int:
     """returns the number of call sites expanded"""
+    if hasattr(ast, 'Match') and any(isinstance(n, ast.Match) for n in ast.walk(tree)):
+        _MatchDesugar().visit(tree)
     for n in tree.body:
         if isinstance(n, (ast.FunctionDef, ast.ClassDef)):
             _Idioms().visit(n)
+    unrolled = 0
+    for n in tree.body:
+        for f in ([n] if isinstance(n, ast.FunctionDef) else
+                  [m for m in n.body if isinstance(m, ast.FunctionDef)] if isinstance(n, ast.ClassDef) else []):
+            unrolled += _unroll_literal_loops(f)
+    for n in tree.body:
+        if isinstance(n, (ast.FunctionDef, ast.ClassDef)):
+            _AttrFold().visit(n)
     ast.fix_missing_locations(tree)
     frozen = frozen_functions()
     if module not in frozen:
@@ -753,6 +1514,8 @@ def inline_new_helpers(tree: ast.Module, module: str) -> int:
     if classes:
         obj = ObjectInliner(classes)
 
+    class_bases = {n.name: [b.id for b in n.bases if isinstance(b, ast.Name)] for n in tree.body if isinstance(n, ast.ClassDef)}
+
     def process(fn: ast.FunctionDef):
         # new local closures (nested defs that are not in the frozen table) are helpers for the body of `fn` only
         local = {}
@@ -764,25 +1527,32 @@ def inline_new_helpers(tree: ast.Module, module: str) -> int:
         saved = inl.helpers
         if local:
             inl.helpers = {**saved, **local}
-        for _round in range(3):
-            if obj is not None and obj.rewrite_function(fn):
-                # methods of inlined objects become helpers (when they can be brought to a single exit)
-                for hn, hf in obj.helpers.items():
-                    if hn not in inl.helpers:
-                        nh = _normalised_helper(hf)
-                        if nh is not None:
-                            inl.helpers[hn] = nh
-                            saved.setdefault(hn, nh)
-            before = inl.done
-            fn.body = inl.block(fn.body, fn.name)
-            if inl.done == before or obj is None:
+        done_before = inl.done
+        for _outer in range(3):
+            for _round in range(5):
+                if obj is not None and obj.rewrite_function(fn):
+                    # methods of inlined objects become helpers (when they can be brought to a single exit)
+                    for hn, hf in obj.helpers.items():
+                        if hn not in inl.helpers:
+                            nh = _normalised_helper(hf)
+                            if nh is not None:
+                                inl.helpers[hn] = nh
+                                saved.setdefault(hn, nh)
+                before = inl.done
+                fn.body = inl.block(fn.body, fn.name)
+                if inl.done == before or obj is None:
+                    break
+            # specialise what was inlined; that may expose further objects / helper calls (a record built in a fused loop)
+            if not (inl.done > done_before and _partial_eval(fn, class_bases)):
                 break
         inl.helpers = saved
         if obj is not None:
+            obj.finalize(fn)
             _expose_fields(fn, obj.helpers)
 
     targets = []
     frozen_methods = frozen.get('<methods>', {}).get(module, {})
+    classes_frozen_here = set(frozen.get('<classes>', {}).get(module, []))
     new_methods_of: Dict[int, Tuple[Dict[str, ast.FunctionDef], str]] = {}
     any_new_method = False
     for n in tree.body:
@@ -798,6 +1568,27 @@ def inline_new_helpers(tree: ast.Module, module: str) -> int:
                         if h is not None:
                             mh[m.name] = h
                             any_new_method = True
+                # methods inherited from NEW base classes of this module (a mixin / an abstract base introduced by a refactoring):
+                # a pinned method the class no longer defines itself is materialised in the class (inheriting it IS having it); a new
+                # method is a helper like the class's own new methods.  Left-to-right, depth-first over the new bases = the MRO for
+                # the single-inheritance-plus-mixins shapes this covers; a base that uses super() is left alone.
+                own = {m.name for m in n.body if isinstance(m, ast.FunctionDef)}
+                for b in _new_bases(n, tree, classes_frozen_here):
+                    if any(isinstance(x, ast.Name) and x.id == 'super' for x in ast.walk(b)):
+                        continue
+                    for m in b.body:
+                        if not isinstance(m, ast.FunctionDef) or m.name in own or m.name in mh:
+                            continue
+                        if m.name in known_m:
+                            mm = copy.deepcopy(m)
+                            n.body.append(mm)
+                            own.add(m.name)
+                            any_new_method = True
+                        elif not m.decorator_list and m.args.args:
+                            h = _normalised_helper(m)
+                            if h is not None:
+                                mh[m.name] = h
+                                any_new_method = True
             for m in n.body:
                 if isinstance(m, ast.FunctionDef) and m.name not in mh:
                     targets.append(m)
@@ -808,11 +1599,28 @@ def inline_new_helpers(tree: ast.Module, module: str) -> int:
         return 0
     for t in targets:
         inl.method_helpers, inl.self_name = new_methods_of.get(id(t), ({}, None))
+        if generators:
+            _desugar_collectors(t, set(generators))
         process(t)
     inl.method_helpers, inl.self_name = {}, None
     ast.fix_missing_locations(tree)
     tree._inline_defaulted = inl.defaulted       # [(owner function, helper, params left at default, line, call text)]
     return inl.done
+
+
+def _new_bases(cls: ast.ClassDef, tree: ast.Module, frozen_classes: Set[str]) -> List[ast.ClassDef]:
+    """the base classes of cls (transitively, left to right, depth first) that are defined in this module and are not in the
+    pinned class table"""
+    here = {n.name: n for n in tree.body if isinstance(n, ast.ClassDef)}
+    out: List[ast.ClassDef] = []
+
+    def walk(c):
+        for b in c.bases:
+            if isinstance(b, ast.Name) and b.id in here and b.id not in frozen_classes and here[b.id] not in out:
+                out.append(here[b.id])
+                walk(here[b.id])
+    walk(cls)
+    return out
 
 
 # ------------------------------------------------------------------------------------------------ across modules
@@ -826,6 +1634,209 @@ def _locals_everywhere(tree) -> Set[str]:
         _LOCALS_CACHE[k] = {n.id for n in ast.walk(tree) if isinstance(n, ast.Name) and isinstance(n.ctx, (ast.Store, ast.Del))} | \
             {a.arg for n in ast.walk(tree) if isinstance(n, ast.arguments) for a in n.args + n.kwonlyargs}
     return _LOCALS_CACHE[k]
+
+
+def adopt_new_definitions(modules, abs_module, pkg: str) -> int:
+    """Before the per-module pre-pass: definitions that a pinned module takes from a NEW place are brought to where they are used.
+    (1) `from . import _impl as k` / `import pkg.a._impl as k` with `k.name(..)` uses, where `name` is a function or class defined in
+    that module and not in the pinned tree: the use becomes a plain imported name (`from pkg.a._impl import name as __xk_name`), so
+    that the cross-module function inlining and (2) see it.  (2) `from pkg.a._impl import Cls` with Cls a new class that the object
+    inliner can model: the class definition is copied into the importing module (names of its home module that the importing module
+    does not bind to the same thing are imported under synthetic aliases), so that the object inliner of the importing module sees
+    it.  (3) a module-level constant instance of an immutable record class (NamedTuple / frozen dataclass) built from literals,
+    `_G = Cls(prefix='a', unknown='b')`, is re-created as a local at the top of every function that reads it."""
+    from .objinline import ClassModel
+    frozen = frozen_functions()
+    fclasses = frozen.get('<classes>', {})
+    done = 0
+
+    def top_defs(tree):
+        return {st.name: st for st in tree.body if isinstance(st, (ast.FunctionDef, ast.ClassDef))}
+
+    def top_bindings(tree):
+        out = {}
+        for st in tree.body:
+            if isinstance(st, (ast.FunctionDef, ast.ClassDef)):
+                out[st.name] = ('def', st)
+            elif isinstance(st, ast.Import):
+                for a in st.names:
+                    out[a.asname or a.name.split('.')[0]] = ('import', st, a)
+            elif isinstance(st, ast.ImportFrom):
+                for a in st.names:
+                    out[a.asname or a.name] = ('importfrom', st, a)
+            elif isinstance(st, ast.Assign):
+                for t in st.targets:
+                    if isinstance(t, ast.Name):
+                        out[t.id] = ('assign', st)
+        return out
+
+    def is_new(hkey, name):
+        if hkey not in frozen:
+            return True
+        return name not in frozen[hkey] and name not in fclasses.get(hkey, [])
+
+    for mname, mi in modules.items():
+        if mname not in frozen:
+            continue
+        tree = mi.tree
+        # (1) module aliases
+        aliases = {}
+        for st in tree.body:
+            if isinstance(st, ast.ImportFrom):
+                base = abs_module(mi.name, mi.is_pkg, st.level, st.module)
+                for a in st.names:
+                    full = base + '.' + a.name
+                    if full.startswith(pkg + '.') and full[len(pkg) + 1:] in modules:
+                        aliases[a.asname or a.name] = full[len(pkg) + 1:]
+            elif isinstance(st, ast.Import):
+                for a in st.names:
+                    if a.asname and a.name.startswith(pkg + '.') and a.name[len(pkg) + 1:] in modules:
+                        aliases[a.asname] = a.name[len(pkg) + 1:]
+        stored = _locals_everywhere(tree)
+        aliases = {k: v for k, v in aliases.items() if k not in stored and modules[v] is not mi}
+        if aliases:
+            wanted = {}
+            for n in ast.walk(tree):
+                if isinstance(n, ast.Attribute) and isinstance(n.value, ast.Name) and n.value.id in aliases and isinstance(n.ctx, ast.Load):
+                    hkey = aliases[n.value.id]
+                    d = top_defs(modules[hkey].tree).get(n.attr)
+                    if d is not None and is_new(hkey, n.attr):
+                        wanted[(n.value.id, n.attr)] = hkey
+
+            class RW(ast.NodeTransformer):
+                def visit_Attribute(s, node):
+                    if isinstance(node.value, ast.Name) and (node.value.id, node.attr) in wanted and isinstance(node.ctx, ast.Load):
+                        return ast.copy_location(ast.Name(id=f'__xk_{node.value.id}_{node.attr}', ctx=ast.Load()), node)
+                    return s.generic_visit(node)
+            if wanted:
+                RW().visit(tree)
+                pos = next((i for i, x in enumerate(tree.body) if not (isinstance(x, ast.Expr) and isinstance(x.value, ast.Constant))
+                            and not (isinstance(x, ast.ImportFrom) and x.module == '__future__')), 0)
+                for (al, nm), hkey in sorted(wanted.items()):
+                    tree.body.insert(pos, ast.ImportFrom(module=pkg + '.' + hkey, names=[ast.alias(name=nm, asname=f'__xk_{al}_{nm}')], level=0))
+                    done += 1
+                ast.fix_missing_locations(tree)
+        # (2) imported new classes
+        mine = top_bindings(tree)
+        for st in list(tree.body):
+            if not isinstance(st, ast.ImportFrom):
+                continue
+            home = abs_module(mi.name, mi.is_pkg, st.level, st.module)
+            if not home.startswith(pkg + '.'):
+                continue
+            hkey = home[len(pkg) + 1:]
+            hm = modules.get(hkey)
+            if hm is None or hm is mi:
+                continue
+            theirs = top_bindings(hm.tree)
+            for a in list(st.names):
+                b = theirs.get(a.name)
+                if b is None or b[0] != 'def' or not isinstance(b[1], ast.ClassDef) or not is_new(hkey, a.name):
+                    continue
+                if not ClassModel(b[1]).ok:
+                    continue
+                local_name = a.asname or a.name
+                cd = copy.deepcopy(b[1])
+                stored_in = {n.id for n in ast.walk(cd) if isinstance(n, ast.Name) and isinstance(n.ctx, (ast.Store, ast.Del))} | \
+                    {x.arg for n in ast.walk(cd) if isinstance(n, ast.arguments) for x in n.args + n.kwonlyargs + n.posonlyargs}
+                ren, imps, ok = {}, [], True
+                for n in ast.walk(cd):
+                    if not (isinstance(n, ast.Name) and isinstance(n.ctx, ast.Load)) or n.id in ren:
+                        continue
+                    if n.id == a.name:
+                        if local_name != a.name:
+                            ren[n.id] = local_name
+                        continue
+                    if n.id not in theirs:
+                        continue
+                    if n.id in stored_in:
+                        ok = False
+                        break
+                    tb = theirs[n.id]
+                    mb = mine.get(n.id)
+                    same = mb is not None and mb[0] == tb[0] and (
+                        (tb[0] == 'import' and mb[2].name == tb[2].name) or
+                        (tb[0] == 'importfrom' and abs_module(mi.name, mi.is_pkg, mb[1].level, mb[1].module) ==
+                         abs_module(hm.name, hm.is_pkg, tb[1].level, tb[1].module) and mb[2].name == tb[2].name))
+                    if same:
+                        continue
+                    alias = n.id if n.id not in mine and n.id not in _locals_everywhere(tree) else '__xm_' + hkey.replace('.', '_') + '__' + n.id
+                    ren[n.id] = alias
+                    mine[alias] = tb
+                    if tb[0] == 'import':
+                        imps.append(ast.Import(names=[ast.alias(name=tb[2].name, asname=alias if (tb[2].asname or alias != tb[2].name.split('.')[0]) else None)]))
+                    elif tb[0] == 'importfrom':
+                        src_mod = abs_module(hm.name, hm.is_pkg, tb[1].level, tb[1].module)
+                        imps.append(ast.ImportFrom(module=src_mod, names=[ast.alias(name=tb[2].name, asname=alias if alias != tb[2].name else None)], level=0))
+                    else:
+                        imps.append(ast.ImportFrom(module=home, names=[ast.alias(name=n.id, asname=alias if alias != n.id else None)], level=0))
+                if not ok:
+                    continue
+                ren = {k: v for k, v in ren.items() if k != v}
+                if ren:
+                    _Rename(ren).visit(cd)
+                cd.name = local_name
+                at = tree.body.index(st)
+                st.names.remove(a)
+                for k, imp in enumerate(imps):
+                    tree.body.insert(at + 1 + k, imp)
+                tree.body.insert(at + 1 + len(imps), cd)
+                mine[local_name] = ('def', cd)
+                done += 1
+            if not st.names:
+                tree.body.remove(st)
+        # (3) module-level constant records
+        here = {n.name: n for n in tree.body if isinstance(n, ast.ClassDef)}
+        consts = {}
+        for st in tree.body:
+            if isinstance(st, ast.Assign) and len(st.targets) == 1 and isinstance(st.targets[0], ast.Name) and isinstance(st.value, ast.Call) \
+                    and isinstance(st.value.func, ast.Name) and st.value.func.id in here \
+                    and st.value.func.id not in fclasses.get(mname, []):
+                cm = ClassModel(here[st.value.func.id])
+                immutable = cm.ok and (cm.is_namedtuple or (cm.is_dataclass and any(
+                    isinstance(d, ast.Call) and any(k.arg == 'frozen' and isinstance(k.value, ast.Constant) and k.value.value is True
+                                                    for k in d.keywords) for d in here[st.value.func.id].decorator_list)))
+                if immutable and all(_is_plain_literal(x) for x in st.value.args + [k.value for k in st.value.keywords]) \
+                        and not any(k.arg is None for k in st.value.keywords):
+                    consts[st.targets[0].id] = st
+        if consts:
+            stores = {}
+            for n in ast.walk(tree):
+                if isinstance(n, ast.Name) and isinstance(n.ctx, (ast.Store, ast.Del)) and n.id in consts:
+                    stores[n.id] = stores.get(n.id, 0) + 1
+                if isinstance(n, (ast.Global, ast.Nonlocal)):
+                    for x in n.names:
+                        stores[x] = 99
+            consts = {k: v for k, v in consts.items() if stores.get(k) == 1}
+            fns = [n for n in tree.body if isinstance(n, ast.FunctionDef)] + \
+                [m for n in tree.body if isinstance(n, ast.ClassDef) for m in n.body if isinstance(m, ast.FunctionDef)]
+            for fn in fns:
+                used = sorted({n.id for n in ast.walk(fn) if isinstance(n, ast.Name) and n.id in consts and isinstance(n.ctx, ast.Load)})
+                params = {x.arg for n in ast.walk(fn) if isinstance(n, ast.arguments) for x in n.args + n.kwonlyargs + n.posonlyargs}
+                used = [u for u in used if u not in params]
+                if not used:
+                    continue
+                _Rename({u: f'__g_{u}' for u in used}).visit(fn)
+                k = 1 if fn.body and isinstance(fn.body[0], ast.Expr) and isinstance(fn.body[0].value, ast.Constant) else 0
+                for u in reversed(used):
+                    asg = ast.Assign(targets=[ast.Name(id=f'__g_{u}', ctx=ast.Store())], value=copy.deepcopy(consts[u].value), type_comment=None)
+                    ast.copy_location(asg, fn.body[k] if len(fn.body) > k else fn)
+                    fn.body.insert(k, asg)
+                    done += 1
+                ast.fix_missing_locations(fn)
+        ast.fix_missing_locations(tree)
+    _LOCALS_CACHE.clear()
+    return done
+
+
+def _is_plain_literal(e) -> bool:
+    if isinstance(e, ast.Constant):
+        return True
+    if isinstance(e, (ast.Tuple, ast.List)):
+        return all(_is_plain_literal(x) for x in e.elts)
+    if isinstance(e, ast.UnaryOp) and isinstance(e.op, ast.USub):
+        return _is_plain_literal(e.operand)
+    return False
 
 
 def inline_across_modules(modules, abs_module, pkg: str) -> int:
@@ -890,6 +1901,9 @@ def inline_across_modules(modules, abs_module, pkg: str) -> int:
                         continue
                     if known is not None and a.name in known:
                         continue            # exists in the pinned tree: anchored where it is
+                    if (a.asname or a.name) in frozen.get(mname, []) and mine.get(a.asname or a.name, ('',))[0] == 'importfrom':
+                        continue            # a pinned function of THIS module that now lives elsewhere and is imported back:
+                        #                     a relocation; the program model resolves the pinned name to it (Program.func)
                     h = _normalised_helper(b[1])
                     if h is None:
                         continue
